@@ -21,20 +21,35 @@ ExtBinds(j) == { x \o y \o z : x \in {<<>>, <<Lit("a", j)>>, <<RefB("a", "b")>>,
                                 z \in {<<>>, <<SetB(j)>>} }
 FormalBinds == { x \o y : x \in {<<>>, <<Formal("a", 91, 0)>>, <<Formal("a", 0, 92)>>, <<Formal("a", 91, 92)>>},
                           y \in {<<>>, <<Formal("b", 93, 0)>>, <<Formal("b", 93, 94)>>} }
-
+\* a directly applied function as the INNERMOST frame whose argument is the name s (resolved at the call site)
+FormalRef(n, d) == [n |-> n, k |-> "formal", v |-> d, m |-> "", arg |-> 0]
+FormalRefBinds == { x \o y : x \in {<<>>, <<FormalRef("a", 91)>>, <<FormalRef("a", 0)>>}, y \in {<<>>, <<FormalRef("b", 93)>>} }
 
 VARIABLE ch
 Init == ch = <<>>
+Closed == ch # <<>> /\ ArgName(ch[Len(ch)]) # ""
 AddFrame == /\ Len(ch) < MaxFrames
+            /\ ~Closed
             /\ IF ~Extended THEN \E k \in Kinds, b \in BindSets(Len(ch) + 1) : ch' = Append(ch, [kind |-> k, binds |-> b])
                ELSE \/ \E k \in Kinds, b \in ExtBinds(Len(ch) + 1) : ch' = Append(ch, [kind |-> k, binds |-> b])
                     \/ (ch = <<>> /\ \E b \in FormalBinds : ch' = <<[kind |-> "formals", binds |-> b]>>)
-Next == AddFrame
+\* the call closes the chain (one frame beyond MaxFrames: outer binder + the call's own let + the call)
+AddCall == /\ Extended /\ ch # <<>> /\ ~Closed /\ Len(ch) <= MaxFrames /\ ch[1].kind # "formals"
+           /\ \E b \in FormalRefBinds : ch' = Append(ch, [kind |-> "formals", binds |-> b, argn |-> "s"])
+Next == AddFrame \/ AddCall
 
 L == Len(ch)
 Thm_LetBeatsWith == C10_LetBeatsWith(ch, L, "a")
 Thm_InnermostWins == C10_InnermostWins(ch, L, "a")
 Thm_PlainSetsInvisible == C10_PlainSetsInvisible(ch, L, "a")
+\* the argument of a call is resolved at the call site: the innermost let / rec frame around the call that binds s to a set
+\* supplies the formal a (the member a of SetB(j) is 50 + j), whatever the frames further out bind
+Thm_CallSiteArg ==
+    (Closed /\ BindIdx(ch[L], "a") # 0) =>
+        LET sb == {j \in 1..(L - 1) : Lexical(ch[j]) /\ BindIdx(ch[j], "s") # 0} IN
+        sb # {} => LET j == CHOOSE x \in sb : \A y \in sb : x >= y
+                       r == Resolve(ch, L, "a", {}) IN
+                   r.ok /\ r.v = 50 + j /\ r.at = <<j, "s">>
 \* bounded time: the recursion visits each binding at most once, hence a result always exists
 Thm_Total == LET r == Resolve(ch, L, "a", {}) IN r.ok \/ r.why \in {"unbound", "cycle"}
 Emit == EmitCases => PrintT(ToJson([ch |-> ch, res |-> Resolve(ch, L, "a", {})]))
